@@ -18,6 +18,7 @@ import hashlib
 import hmac as _hmac
 import os
 import shutil
+import signal
 import subprocess
 import tempfile
 import types
@@ -387,6 +388,36 @@ def rint(r, bits):
     return r.getrandbits(bits) if bits else 0
 
 
+class Hang(Exception):
+    pass
+
+
+class deadline:
+    """bound the time of calls that contain retry loops in the implementation
+    (generate_k, sign_digest_deterministic): a mutated loop must not hang the check"""
+
+    def __init__(self, seconds=30):
+        self.seconds = seconds
+
+    def _fire(self, *a):
+        raise Hang("no result after %ds" % self.seconds)
+
+    def __enter__(self):
+        try:
+            self.old = signal.signal(signal.SIGALRM, self._fire)
+            signal.alarm(self.seconds)
+            self.armed = True
+        except ValueError:          # not in the main thread
+            self.armed = False
+        return self
+
+    def __exit__(self, *a):
+        if self.armed:
+            signal.alarm(0)
+            signal.signal(signal.SIGALRM, self.old)
+        return False
+
+
 class HmacRecorder:
     """stands in for the `hmac` module inside rfc6979.py and records (hash, key, msg, digest)"""
 
@@ -452,6 +483,8 @@ class Cases:
         self.descr = []
 
     def add(self, group, expr, descr, key=None, trivial=False):
+        if "EOther_" in expr:        # an exception class the model has no image for: a mismatch
+            expr, descr = "false", descr + " [implementation raised an exception outside the model's error enum]"
         self.exprs.append(expr)
         self.descr.append((group, descr))
         self.ctx.case((group, key if key is not None else descr), trivial=trivial)
@@ -503,7 +536,7 @@ def corr_ints(ctx, lib, cs):
                "string_to_number(%s)" % b.hex())
     # inverse_mod
     ms = [1, 2, 3, 4, 5, 7, 8, 9, 15, 16, 21, 25, 97, 255, 256, 257, 1009, 1 << 32, (1 << 61) - 1] + \
-        [c.order for c in real_curves(lib)] + [c.curve.p() for c in real_curves(lib)[:4]] + \
+        r.sample([c.order for c in real_curves(lib)], ctx.budget(6, 17)) + [c.curve.p() for c in real_curves(lib)[:2]] + \
         [r.getrandbits(r.choice([10, 64, 200, 521])) + 2 for _ in range(ctx.budget(6, 60))] + [0]
     for m in ms:
         as_ = [0, 1, 2, m - 1, m, m + 1, 2 * m, -1, -2, m // 2, m // 3] + \
@@ -648,7 +681,7 @@ def corr_codecs(ctx, lib, cs):
               (1 << 1025) + 3, (1 << 1024) - 105]
     reps = ctx.budget(1, 8)
     if ctx.quick():
-        orders = orders[:17] + r.sample(orders[17:33], 5) + orders[33:]
+        orders = r.sample(orders[:17], 9) + r.sample(orders[17:33], 4) + orders[33:]
     for o in orders:
         l = U.orderlen(o)
         fh = float_half(o)
@@ -755,7 +788,7 @@ def corr_generate_k(ctx, lib, cs):
             x = o + r.randrange(0, 3) if r.random() < 0.5 else 256 ** lib.util.orderlen(o) + r.randrange(0, 5)
         if style == "empty_data":
             data = b""
-        with recording(lib) as rec:
+        with recording(lib) as rec, deadline():
             got = run_impl(R.generate_k, o, x, getattr(hashlib, hn), data, retry, extra)
         fuel = 4 + len(rec.calls)
         cs.add("generate_k/" + ("real" if big else "small") + "/" + style,
@@ -808,8 +841,8 @@ def corr_ecdsa(ctx, lib, cs):
         n = t[5]
         pre += "Definition T%d : list (Z * Z) := %s.\n" % (n, qtab(toy_table(t)))
         g = grp(n, "T%d" % n)
-        per = ctx.budget(10, 150)
-        exhaustive = n <= ctx.budget(5, 13)
+        per = ctx.budget(7, 150)
+        exhaustive = n <= ctx.budget(0, 13)
         trip = [(d, k, e) for d in range(1, n) for k in range(0, n + 2) for e in (0, 1, n - 1, n + 3)] if exhaustive else []
         while len(trip) < per:
             trip.append((r.randrange(1, n), r.choice([r.randrange(1, n)] * 6 + [0, n, n + 1, -1]),
@@ -875,7 +908,7 @@ def corr_ecdsa(ctx, lib, cs):
             hn = r.choice(HASHES)
             digest = rbytes(r, r.choice([1, 2, 20]))
             extra = r.choice([b"", rbytes(r, 3)])
-            with recording(lib) as rec:
+            with recording(lib) as rec, deadline():
                 got = run_s(lib, sk.sign_digest_deterministic, digest, getattr(hashlib, hn), lambda a, b, o: (a, b), extra, True)
             fuel = 4 + len(rec.calls)
             cs.add_s("sign_digest_deterministic/toy",
@@ -933,7 +966,7 @@ def corr_ecdsa(ctx, lib, cs):
         sk = lib.keys.SigningKey.from_secret_exponent(d, c)
         hn = r.choice(HASHES)
         digest = hashlib.new(hn, rbytes(r, 6)).digest()
-        with recording(lib) as rec:
+        with recording(lib) as rec, deadline():
             got = run_s(lib, sk.sign_digest_deterministic, digest, getattr(hashlib, hn), lambda a, b, o: (a, b), b"", True)
         k = o_generate_k(n, d, digest, hn)
         g = grp(n, qtab([(k, oc.mulG(k)[0])]))
@@ -1079,8 +1112,9 @@ def search_matrix(ctx, lib, ocs):
                             if mode == "random":
                                 sig = sk.sign(msg, hashfunc=hf, sigencode=enc, k=knonce)
                             else:
-                                sig = sk.sign_deterministic(msg, hashfunc=hf, sigencode=enc)
-                                sig_again = sk.sign_deterministic(msg, hashfunc=hf, sigencode=enc)
+                                with deadline():
+                                    sig = sk.sign_deterministic(msg, hashfunc=hf, sigencode=enc)
+                                    sig_again = sk.sign_deterministic(msg, hashfunc=hf, sigencode=enc)
                                 if sig != sig_again:
                                     ctx.fail("deterministic-differs", info, "two calls gave different signatures")
                         except Exception as ex:   # noqa
@@ -1346,7 +1380,8 @@ def search_generate_k(ctx, lib):
         extra = r.choice([b"", b"", rbytes(r, 4)])
         skip = r.choice([0, 0, 0, 1, 2])
         ctx.case(("generate_k", q, x, hn, h1, extra, skip))
-        got = run_impl(lib.rfc6979.generate_k, q, x, getattr(hashlib, hn), h1, skip, extra)
+        with deadline():
+            got = run_impl(lib.rfc6979.generate_k, q, x, getattr(hashlib, hn), h1, skip, extra)
         want = o_generate_k(q, x, h1, hn, extra, skip)
         if got != ("ok", want):
             ctx.fail("generate_k-differs", {"order": q, "secexp": x, "hash": hn, "data": h1, "extra": extra, "retry_gen": skip},
@@ -1378,6 +1413,42 @@ def search_toy(ctx, lib):
                 if rr != x or not oc.verify(Q, e, rr, ss) or vk.pubkey.verifies(e, lib.ecdsa.Signature(rr, ss)) is not True:
                     ctx.fail("toy-sign-verify", {"n": n, "d": d, "k": k, "e": e, "r": rr, "s": ss}, "x(kG) mod n = %d" % x)
         ctx.nontrivial.add(("toy", n))
+
+
+def search_toy_deterministic(ctx, lib):
+    """sign_digest_deterministic on toy curves, where r = 0 or s = 0 (RSZeroError and the
+    retry with the next suitable candidate) really happens: equals RFC 6979 section 3.2
+    continued until a candidate gives r, s != 0, and verifies"""
+    r = ctx.rng
+    for t, cv in zip(TOY, toy_curves(lib)):
+        n = t[5]
+        oc = OC(cv)
+        for _ in range(ctx.budget(12, 150) * (3 if ctx.brokens else 1)):
+            d = r.randrange(1, n)
+            sk = lib.keys.SigningKey.from_secret_exponent(d, cv)
+            hn = r.choice(HASHES)
+            digest = rbytes(r, r.choice([1, 2, 20, 32]))
+            ctx.case(("toy-det", n, d, hn, digest))
+            info = {"n": n, "d": d, "hash": hn, "digest": digest}
+            with deadline(20):
+                got = run_s(lib, sk.sign_digest_deterministic, digest, getattr(hashlib, hn), lambda a, b, o: (a, b), b"", True)
+            e = oc.e_of(digest)
+            want = None
+            for i, k in enumerate(o_candidates(n, d, digest, hn)):
+                if i > 2000:
+                    break
+                if 1 <= k <= n - 1:
+                    r0 = oc.mulG(k)[0] % n
+                    s0 = pow(k, -1, n) * (e + d * r0) % n
+                    if r0 and s0:
+                        want = (r0, s0)
+                        break
+            if want is None:
+                continue
+            if got != ("ok", want):
+                ctx.fail("toy-deterministic-differs", info, "sign_digest_deterministic -> %r, RFC 6979 with retry: %r" % (got, want))
+            elif not oc.verify(oc.mulG(d), e, *want):
+                ctx.fail("toy-deterministic-differs", info, "RFC 6979 signature %r does not verify" % (want,))
 
 
 def search_openssl(ctx, lib, ocs):
@@ -1457,6 +1528,7 @@ def search(ctx):
     search_vectors(ctx, lib, ocs)
     search_generate_k(ctx, lib)
     search_toy(ctx, lib)
+    search_toy_deterministic(ctx, lib)
     search_range(ctx, lib, ocs)
     search_digest(ctx, lib, ocs)
     search_malformed(ctx, lib, ocs)
@@ -1509,6 +1581,26 @@ def replay_one(lib, by, f):
         got = run_impl(sk.sign_deterministic, d["msg"].encode(), getattr(hashlib, d["hash"]), lambda a, b, o: (a, b))
         print("  sign_deterministic ->", got, "\n  RFC 6979        -> r=%s s=%s" % (rr, ss))
         return got != ("ok", (int(rr, 16), int(ss, 16)))
+    if kind == "toy-deterministic-differs":
+        cv = [c for t, c in zip(TOY, toy_curves(lib)) if t[5] == d["n"]][0]
+        oc = OC(cv)
+        sk = lib.keys.SigningKey.from_secret_exponent(d["d"], cv)
+        digest, n = _hx(d["digest"]), d["n"]
+        with deadline(20):
+            got = run_s(lib, sk.sign_digest_deterministic, digest, getattr(hashlib, d["hash"]), lambda a, b, o: (a, b), b"", True)
+        e = oc.e_of(digest)
+        want = None
+        for i, k in enumerate(o_candidates(n, d["d"], digest, d["hash"])):
+            if i > 2000:
+                break
+            if 1 <= k <= n - 1:
+                r0 = oc.mulG(k)[0] % n
+                s0 = pow(k, -1, n) * (e + d["d"] * r0) % n
+                if r0 and s0:
+                    want = (r0, s0)
+                    break
+        print("  sign_digest_deterministic ->", got, " RFC 6979 with retry ->", want)
+        return got != ("ok", want)
     if kind.startswith("toy-"):
         cv = [c for t, c in zip(TOY, toy_curves(lib)) if t[5] == d["n"]][0]
         oc = OC(cv)
